@@ -884,6 +884,9 @@ func runShard(run *ev.Run, idx, total int) {
 		sb.WriteString(hex.EncodeToString(k[:]))
 		sb.WriteByte('\n')
 	}
+	// other builders clean /dev/shm from time to time: make sure the output directories still exist
+	os.MkdirAll(os.Getenv("VERIF_C29_ROOT"), 0o755)
+	os.MkdirAll(filepath.Dir(os.Getenv("VERIF_SHARD_OUT")), 0o755)
 	must(os.WriteFile(filepath.Join(os.Getenv("VERIF_C29_ROOT"), fmt.Sprintf("states.%02d", idx)), sb.Bytes(), 0o644), "write states")
 	os.RemoveAll(root) // the process exits now: DuckDB is not closed (0.8 s per shard)
 	pprof.StopCPUProfile()
@@ -938,6 +941,14 @@ func main() {
 	}
 	if idx, total, ok := ev.Shard(); ok {
 		runShard(run, idx, total)
+	}
+	// scratch of earlier runs that died (exit 2 skips the deferred removal): drop it when its pid is gone
+	if old, _ := filepath.Glob("/dev/shm/verif.c29.*"); len(old) > 0 {
+		for _, d := range old {
+			if _, err := os.Stat("/proc/" + strings.TrimPrefix(d, "/dev/shm/verif.c29.")); err != nil {
+				os.RemoveAll(d)
+			}
+		}
 	}
 	root := fmt.Sprintf("/dev/shm/verif.c29.%d", os.Getpid())
 	os.RemoveAll(root)
